@@ -1276,7 +1276,7 @@ fn run_c12(r: &mut RunResult, prop: &str, idx: u64, seed: u64, rng: &mut Rng, ti
         c
     } else {
         let lvl = if rng.chance(5, 6) { Level::Pin } else { Level::Trace };
-        let mut c = gen_config(rng, &CfgOpts { level: lvl, giant: false, max_window: 12, full_window_pct: 0, ..CfgOpts::default() });
+        let mut c = gen_config(rng, &CfgOpts { real_panels: false, level: lvl, giant: false, max_window: 12, full_window_pct: 0, ..CfgOpts::default() });
         c.w = c.w.min(12);
         c.h = c.h.min(12);
         c
